@@ -182,13 +182,15 @@ structure EState where
   finalSent : Nat
   excPending : Bool
   raised : Bool
+  acl : Nat             -- calls of `aclose()` on the user's iterable made by the relay (iterator objects: their cleanup)
   deriving DecidableEq, Repr
 
 def einit (n : Nat) (fails : Bool) : EState :=
   { n := n, fails := fails, produced := 0, gen := .fresh, cleanups := 0, disc := false,
     closed := false, wpc := .none, wcancel := false, mpc := .start, render := .fresh, cur := none,
     q := .empty, stop := false, rpc := .none, rcancel := false, failed := false, taken := 0,
-    delivered := [], pings := 0, finalSent := 0, excPending := false, raised := false }
+    delivered := [], pings := 0, finalSent := 0, excPending := false, raised := false,
+    acl := 0 }
 
 def EState.yielded (s : EState) : List Nat := List.range s.produced
 
@@ -237,8 +239,8 @@ def ewatcher (s : EState) : Option EState :=
 def relayFinally (s : EState) : EState :=
   if s.q = .empty then
     if s.gen = .suspended then
-      { s with q := .sentinel, gen := .finished, cleanups := s.cleanups + 1, rpc := .done }
-    else { s with q := .sentinel, rpc := .done }
+      { s with q := .sentinel, gen := .finished, cleanups := s.cleanups + 1, rpc := .done, acl := s.acl + 1 }
+    else { s with q := .sentinel, rpc := .done, acl := s.acl + 1 }
   else { s with rpc := .putNone }
 
 def erelay (s : EState) : Option EState :=
@@ -251,8 +253,8 @@ def erelay (s : EState) : Option EState :=
     | .putNone =>
       -- raised inside `await q.put(None)`: the inner `finally` still releases the producer
       if s.gen = .suspended then
-        some { s with rcancel := false, gen := .finished, cleanups := s.cleanups + 1, rpc := .done }
-      else some { s with rcancel := false, rpc := .done }
+        some { s with rcancel := false, gen := .finished, cleanups := s.cleanups + 1, rpc := .done, acl := s.acl + 1 }
+      else some { s with rcancel := false, rpc := .done, acl := s.acl + 1 }
     | .none => none
     | .done => none
   else
@@ -278,8 +280,8 @@ def erelay (s : EState) : Option EState :=
     | .putNone =>
       if s.q = .empty then
         if s.gen = .suspended then
-          some { s with q := .sentinel, gen := .finished, cleanups := s.cleanups + 1, rpc := .done }
-        else some { s with q := .sentinel, rpc := .done }
+          some { s with q := .sentinel, gen := .finished, cleanups := s.cleanups + 1, rpc := .done, acl := s.acl + 1 }
+        else some { s with q := .sentinel, rpc := .done, acl := s.acl + 1 }
       else none
     | .done => none
 
